@@ -184,9 +184,10 @@ func (f *PF[E, FP, F]) binary(t vlib.Fataler, av, bv *big.Int) {
 	if a.IsOdd() != (av.Bit(0) == 1) || a.IsEven() == a.IsOdd() {
 		t.Fatalf("%s: IsOdd(%v) = %v, IsEven = %v", f.name, av, a.IsOdd(), a.IsEven())
 	}
-	neg := f.mod(new(big.Int).Neg(av))
-	if wantNeg := av.Cmp(neg) > 0; a.IsNegative() != wantNeg || a.IsPositive() == wantNeg {
-		t.Fatalf("%s: IsNegative(%v) = %v (documented: v > -v, i.e. %v), IsPositive = %v", f.name, av, a.IsNegative(), wantNeg, a.IsPositive())
+	// sign convention: only what every convention implies - 0 is not negative, of a != 0 and -a
+	// exactly one is negative, IsPositive is the complement
+	if n, nn := a.IsNegative(), a.Neg().IsNegative(); a.IsPositive() == n || (av.Sign() == 0 && n) || (av.Sign() != 0 && n == nn) {
+		t.Fatalf("%s: IsNegative(%v) = %v, IsNegative(-v) = %v, IsPositive = %v", f.name, av, n, nn, a.IsPositive())
 	}
 	cmp := av.Cmp(bv)
 	if a.Equal(b) != (cmp == 0) || b.Equal(a) != (cmp == 0) {
